@@ -6,6 +6,48 @@
 From Common Require Import Prelude.
 Local Open Scope N_scope.
 
+
+(* ------------------------------------------------ the per-backend glue code, as COMPLETE statement lists
+   (schedule_impl in detail/schedule.inl; AsyncTaskImpl's constructor and wait() in detail/async_task.inl).
+   Anything not in this vocabulary — a static or thread_local local, an extra call — is SUnknown and fails closed. *)
+Inductive backend := BTbb | BOmp | BInt | BDbg.
+Inductive sstmt :=
+  | SArenaLocal      (* tbb::task_arena ta = task_arena(attach());   a NON-static local: the CALLER's arena on every call *)
+  | SEnqueue         (* ta.enqueue(fcn) *)
+  | SThreadLocal     (* std::thread thread(fcn);  non-static local *)
+  | SDetach          (* thread.detach() *)
+  | SCallInternal    (* detail::schedule_internal(std::move(fcn)) *)
+  | SCallDirect      (* fcn()  — Debug: synchronous *)
+  | SRun             (* taskGroup.run(fcn) *)
+  | SInitMember      (* member initialised from the closure: thread(fcn) / task(fcn) *)
+  | SSchedInternal   (* detail::scheduleTaskInternal(&task) *)
+  | SWaitGroup       (* taskGroup.wait() *)
+  | SJoinIfJoinable  (* if (thread.joinable()) thread.join() *)
+  | SWaitInternal    (* detail::waitInternal(&task) *)
+  | SUnknown.
+Definition sstmt_eqb (a b : sstmt) : bool :=
+  match a, b with
+  | SArenaLocal, SArenaLocal | SEnqueue, SEnqueue | SThreadLocal, SThreadLocal | SDetach, SDetach
+  | SCallInternal, SCallInternal | SCallDirect, SCallDirect | SRun, SRun | SInitMember, SInitMember
+  | SSchedInternal, SSchedInternal | SWaitGroup, SWaitGroup | SJoinIfJoinable, SJoinIfJoinable
+  | SWaitInternal, SWaitInternal => true
+  | _, _ => false     (* SUnknown equals nothing *)
+  end.
+Fixpoint slist_eqb (a b : list sstmt) : bool :=
+  match a, b with [], [] => true | x :: r, y :: s => sstmt_eqb x y && slist_eqb r s | _, _ => false end.
+(* the shapes the contracts of this file are stated for: the closure is handed to the backend exactly once per call,
+   through an object created by that call *)
+Definition sched_impl_ref (b : backend) : list sstmt :=
+  match b with BTbb => [SArenaLocal; SEnqueue] | BOmp => [SThreadLocal; SDetach] | BInt => [SCallInternal] | BDbg => [SCallDirect] end.
+Definition impl_ctor_ref (b : backend) : list sstmt :=
+  match b with BTbb => [SRun] | BOmp => [SInitMember] | BInt => [SInitMember; SSchedInternal] | BDbg => [SCallDirect] end.
+Definition impl_wait_ref (b : backend) : list sstmt :=
+  match b with BTbb => [SWaitGroup] | BOmp => [SJoinIfJoinable] | BInt => [SWaitInternal] | BDbg => [] end.
+Definition all_backends := [BTbb; BOmp; BInt; BDbg].
+Definition glue_ok (sched ctor wait : backend -> list sstmt) : bool :=
+  forallb (fun b => slist_eqb (sched b) (sched_impl_ref b) && slist_eqb (ctor b) (impl_ctor_ref b) && slist_eqb (wait b) (impl_wait_ref b))
+          all_backends.
+
 (* ================================================================== A. async() *)
 Inductive aev := AAlloc      (* new package_t(fcn) *)
                | AGetFuture  (* task->get_future() *)
